@@ -13,6 +13,7 @@ Model family (sizes, data, node classes and kernel assignment are drawn per conf
     free_sq = free ** 2                         Calc    (derived from a parameter that has no likelihood part)
     log_mu0 = log(mu0), sqrt_free = sqrt(free), log_log_sigma = log(log_sigma)
                                                 Calc    (off the log-prob path; nan / -inf for part of the positions)
+    free_cube = free ** 3, eta_abs = |eta|      FNode(lsl.Node): cached nodes of a user-defined node class
     probe_j                                     Data    (one per kernel; written by the harness' probe kernels)
 
 After every kernel of the sequence a GibbsKernel of the harness ("probe") copies every stored value and every
@@ -81,8 +82,24 @@ def build_model(cfg):
     log_mu0 = lsl.Calc(jnp.log, mu0, _name="log_mu0")
     sqrt_free = lsl.Calc(jnp.sqrt, free, _name="sqrt_free")
     log_log_sigma = lsl.Calc(jnp.log, log_sigma, _name="log_log_sigma")
+
+    class FNode(lsl.Node):
+        """a caching node that is neither a Calc nor a Dist: derives directly from lsl.Node and implements update() the way
+        Calc does (user-defined node classes are part of the public API; lsl.PIT's node is one in newer versions)"""
+
+        def __init__(self, function, *inputs, _name=""):
+            super().__init__(*inputs, _name=_name)
+            self._function = function
+
+        def update(self):
+            self._value = self._function(*[i.value for i in self.inputs])
+            self._outdated = False
+            return self
+
+    free_cube = FNode(lambda f: f ** 3, free, _name="free_cube")
+    eta_abs = FNode(jnp.abs, eta, _name="eta_abs")
     gb = lsl.GraphBuilder()
-    gb.add(y, beta, mu0, log_sigma, log_tau, free, eta_sq, zjoin, xtx, free_sq, log_mu0, sqrt_free, log_log_sigma)
+    gb.add(y, beta, mu0, log_sigma, log_tau, free, eta_sq, zjoin, xtx, free_sq, log_mu0, sqrt_free, log_log_sigma, free_cube, eta_abs)
     return gb, lsl
 
 
@@ -290,6 +307,14 @@ def check_case(case):
                     dif = np.abs(got - ref)
                     i = int(np.argmax(np.where(np.isnan(dif), np.inf, dif)))
                     return (f"{where}: stored {nm}[{i}] = {got[i]!r}, recomputed from the stored parameter values it is {ref[i]!r}")
+        # the derived nodes of a user-defined node class, against their closed form (a fresh model would share a defect of
+        # Model.update for such classes)
+        for nm, ref in (("free_cube", get(post, "free_value") ** 3), ("eta_abs", np.abs(get(post, "eta")))):
+            got = get(post, nm)
+            if not np.allclose(got, ref, rtol=RTOL, atol=ATOL, equal_nan=True):
+                i = int(np.argmax(np.abs(got - ref)))
+                return (f"{where}: stored {nm}[{i}] = {got[i]!r} (a cached node of a user-defined lsl.Node subclass), from the "
+                        f"stored values it is {ref[i]!r}")
         nf = [nm for nm in tracked if kinds[nm] == "C" and not np.isfinite(get(post, nm)).all()]
         if nf:
             case["nonfinite_states"] = case.get("nonfinite_states", 0) + 1
